@@ -12,14 +12,3 @@ COMMON_NOTE = ("Trusted: Lean 4.33 kernel (axioms propext/Classical.choice/Quot.
                "the correspondence harness/driver/canonicalisation (differential testing bounds what is seen of the implementation), "
                "the Python monitor as failing-input oracle only. ")
 
-LEVEL = {
-    "C20": dict(
-        technique="Lean 4 proof (inductive invariant over op lists, codec round-trip and prefix theorems, refinement to an abstract book) + model/implementation correspondence",
-        text="Theorems for every op sequence, address, delta, clock value and byte string: addresses unique after any API history (incl. loads of files cut anywhere), "
-             "Get = exact score filter with the extracted -1 sentinel, UpdateScore refines an abstract book (int32-wrapped sum of deltas), decode(encode l) = l, "
-             "decode of every prefix keeps exactly the fully written peers, Load total. The model is tied to peers.go by byte-exact differential runs "
-             "(saved file bytes compared) on adversarial addresses and hostile files.",
-        note=COMMON_NOTE + "Concurrent callers are reduced to sequential histories by the extracted lock shape (whole-method mutex) plus Go mutex semantics; LoadSeeds (unlocked) is not modelled. "
-             "C20_load_total is true of the model by construction; for the code it rests on the correspondence over hostile files.",
-    ),
-}
